@@ -384,12 +384,24 @@ class Storm:
                     b += b"PING p%d\r\n" % j
             b += b"PING end\r\n"
             bursts.append(b)
+        before = srv.snap()["command_counts"] if self.hooks else None
+        sent_pings = sum(b.count(b"PING ") for b in bursts)
+        sent_msgs = sum(b.count(b"PRIVMSG ") for b in bursts)
         fire(cs[:senders], bursts)
         for i in range(senders):
             lines = cs[i].read_until(lambda m: m.verb == "PONG" and m.params[-1:] == ["end"])
             toks = [int(m.params[-1][1:]) for m in lines if m.verb == "PONG" and m.params[-1] != "end"]
             if toks != list(range(0, n, 4)):
                 self.bad("storm:reply-order", "sender %d: PONG tokens %s" % (i, toks[:12]))
+        if before is not None:
+            # every command was executed and answered: the server's own per-command counters (STATS m) must have
+            # advanced by exactly what was sent - a lost update is a non-atomic effect
+            after = srv.snap()["command_counts"]
+            dp = after.get("PING", 0) - before.get("PING", 0)
+            dm = after.get("PRIVMSG", 0) - before.get("PRIVMSG", 0)
+            if dp != sent_pings or dm != sent_msgs:
+                self.bad("storm:counter-lost-update", "%d senders pipelined %d PING and %d PRIVMSG, all answered; the command "
+                         "counters advanced by %d and %d" % (senders, sent_pings, sent_msgs, dp, dm))
         # flush the receivers' queues with a marker that travels through each queue
         flusher = cs[0]
         flusher.send("PRIVMSG %s,%s%d :FLUSH" % (rnick, pfx, senders))
@@ -599,7 +611,7 @@ def worker(args):
                 elif kind == "limit":
                     st.w_limit(srv, r.choice([6, 10]), r.choice([1, 2, 3, 5]))
                 elif kind == "fifo":
-                    st.w_order_full(srv, r.choice([3, 5]), 30 if quick else 80)
+                    st.w_order_full(srv, r.choice([3, 5, 12]), r.choice([30, 120]) if quick else r.choice([80, 400]))
                 elif kind == "flood":
                     st.w_flood(srv, r.choice([400, 1500]) if quick else r.choice([1500, 6000]))
                 else:
